@@ -145,6 +145,22 @@ def m_sample_size(cx, obj, tag):
         obj.sample_size = 3
 
 
+def m_ss_v_eq_u(cx, obj, tag):
+    """density edit whose new value coincides with the density of another direction"""
+    if obj.pdimension == 2:
+        obj.sample_size_v = obj.sample_size_u
+    else:
+        obj.sample_size_w = obj.sample_size_u
+
+
+def m_ss_u_eq_v(cx, obj, tag):
+    obj.sample_size_u = obj.sample_size_v
+
+
+def m_delta_scalar_eq(cx, obj, tag):
+    obj.delta = obj.delta_u
+
+
 def m_delta(cx, obj, tag):
     if obj.pdimension == 1:
         obj.delta = 0.5
@@ -268,6 +284,9 @@ MUTATORS = {
     'knotvector=': (m_knotvector, (1, 2), None),
     'sample_size=': (m_sample_size, (1, 2, 3), None),
     'delta=': (m_delta, (1, 2, 3), None),
+    'sample_size_v=sample_size_u': (m_ss_v_eq_u, (2, 3), None),
+    'sample_size_u=sample_size_v': (m_ss_u_eq_v, (2, 3), None),
+    'delta=delta_u': (m_delta_scalar_eq, (2, 3), None),
     'insert_knot': (m_insert, (1, 2, 3), None),
     'insert_knot_u': (m_insert_u, (2,), None),
     'operations.insert_knot': (m_insert_ops, (1, 2), None),
@@ -301,7 +320,7 @@ def _build(cx, sp):
     elif obj.pdimension == 2:
         obj.sample_size_u, obj.sample_size_v = 3, 2
     else:
-        obj.sample_size = 2
+        obj.sample_size_u, obj.sample_size_v, obj.sample_size_w = 2, 3, 4
     return obj
 
 
